@@ -135,12 +135,20 @@ func (s *LinkedLog) ReadWithSize(offset uint64, size uint64) ([]OffsetAndSizeAnd
 		return nil, indexes.OffsetAndSize{}, fmt.Errorf("compacted indexes length too large: %d", size)
 	}
 	// debugln("compactedIndexesLen:", compactedIndexesLen)
-	// Read the compressed indexes
-	data := make([]byte, size-uint64(sizeOfUvarint(size))) // The size bytes have already been read.
-	_, err := s.file.ReadAt(data, int64(offset)+int64(sizeOfUvarint(size)))
+	// Read the whole record: uvarint(payload length) followed by the payload.
+	// `size` is the size of the whole record, so the width of the length prefix
+	// must be taken from the prefix itself (it is not sizeOfUvarint(size) when
+	// the payload length sits just below a varint width boundary).
+	record := make([]byte, size)
+	_, err := s.file.ReadAt(record, int64(offset))
 	if err != nil {
 		return nil, indexes.OffsetAndSize{}, err
 	}
+	payloadLen, prefixLen := binary.Uvarint(record)
+	if prefixLen <= 0 || uint64(prefixLen)+payloadLen != size || payloadLen < 9 {
+		return nil, indexes.OffsetAndSize{}, fmt.Errorf("invalid record length prefix at offset %d (record size %d)", offset, size)
+	}
+	data := record[prefixLen:]
 	// debugln_(func() []any { return []any{"data:", bin.FormatByteSlice(data)} })
 	// the indexesBytes are up until the last 8 bytes, which are the `next` offset.
 	indexesBytes := data[:len(data)-9]
